@@ -22,6 +22,11 @@ pub struct GenOpts {
     pub rnd: bool,
     /// make INPUT frequent and place it in THEN / ELSE / loops / subroutines
     pub input_boost: bool,
+    /// k > 0: the program starts with `INPUT Z1 : .. : INPUT Zk` and most IF conditions test one Zi,
+    /// so that a driver can force both branches by choosing the replies
+    pub forced_conds: usize,
+    /// per-mille of statements that get a deliberate typing mistake (C06)
+    pub type_mistake_permille: u64,
 }
 
 impl Default for GenOpts {
@@ -36,6 +41,8 @@ impl Default for GenOpts {
             functions: true,
             rnd: true,
             input_boost: false,
+            forced_conds: 0,
+            type_mistake_permille: 0,
         }
     }
 }
@@ -81,6 +88,7 @@ struct G<'r> {
     in_sub: bool,
     budget: i32,
     leaf_label: Option<u64>,
+    forced_used: bool,
 }
 
 impl<'r> G<'r> {
@@ -215,6 +223,15 @@ impl<'r> G<'r> {
     }
 
     fn cond(&mut self, depth: u32) -> Expr {
+        if self.opts.forced_conds > 0 && self.rng.chance(3, 4) {
+            let z = var(&format!("Z{}", 1 + self.rng.usize(self.opts.forced_conds)));
+            self.forced_used = true;
+            return match self.rng.below(4) {
+                0 => Expr::Un(Un::Not, Box::new(z)),
+                1 => bin(Bin::Eq, z, num(1)),
+                _ => z,
+            };
+        }
         let ops = [Bin::Eq, Bin::Ne, Bin::Lt, Bin::Le, Bin::Gt, Bin::Ge];
         match self.rng.below(10) {
             0..=4 => bin(*self.rng.pick(&ops), self.num_expr(depth), self.num_expr(depth)),
@@ -274,7 +291,30 @@ impl<'r> G<'r> {
         Stmt::Print { items, question_mark: self.rng.chance(1, 10) }
     }
 
+    fn mistyped_stmt(&mut self) -> Stmt {
+        self.feat("typed-mistake");
+        let t = |n: &str| LValue::scalar(n);
+        match self.rng.below(12) {
+            0 => Stmt::Let { target: t("X"), expr: strlit("s"), keyword: false },
+            1 => Stmt::Let { target: t("A$"), expr: num(1), keyword: false },
+            2 => Stmt::Print { items: vec![PrintItem::Expr(bin(Bin::Add, var("A$"), num(1)))], question_mark: false },
+            // comparison / logical results are numbers whatever their operands are
+            3 => Stmt::Let { target: t("X"), expr: bin(Bin::Eq, var("A$"), var("B$")), keyword: false },
+            4 => Stmt::Let { target: t("N$"), expr: bin(Bin::Eq, var("N$"), var("B$")), keyword: false },
+            5 => Stmt::Let { target: t("A$"), expr: Expr::Un(Un::Not, Box::new(strlit("A"))), keyword: false },
+            6 => Stmt::Let { target: t("X"), expr: bin(Bin::And, strlit("A"), num(1)), keyword: false },
+            7 => Stmt::Let { target: t("Y"), expr: Expr::Un(Un::Not, Box::new(var("B$"))), keyword: false },
+            8 => Stmt::Let { target: t("B$"), expr: bin(Bin::Or, var("A$"), var("B$")), keyword: false },
+            9 => Stmt::Print { items: vec![PrintItem::Expr(Expr::Cell("M".into(), vec![strlit("1")]))], question_mark: false },
+            10 => Stmt::Let { target: t("X"), expr: bin(Bin::Lt, bin(Bin::Lt, var("A$"), var("B$")), var("N$")), keyword: false },
+            _ => Stmt::Let { target: t("W"), expr: bin(Bin::Mul, var("N$"), num(2)), keyword: false },
+        }
+    }
+
     fn let_stmt(&mut self) -> Stmt {
+        if self.opts.type_mistake_permille > 0 && self.rng.below(1000) < self.opts.type_mistake_permille {
+            return self.mistyped_stmt();
+        }
         let keyword = self.rng.chance(1, 5);
         match self.rng.below(10) {
             0..=5 => {
@@ -793,9 +833,14 @@ pub fn generate(rng: &mut Rng, opts: &GenOpts) -> Generated {
         in_sub: false,
         budget: 0,
         leaf_label: None,
+        forced_used: false,
     };
     g.budget = 2 + g.rng.usize(opts.max_main_blocks) as i32;
 
+    if opts.forced_conds > 0 {
+        let line: Vec<Stmt> = (1..=opts.forced_conds).map(|i| Stmt::Input(LValue::scalar(&format!("Z{}", i)))).collect();
+        g.emit(line);
+    }
     // functions first (each defined once, before any use)
     if opts.functions && g.rng.chance(1, 2) {
         let n = 1 + g.rng.usize(3);
@@ -807,7 +852,11 @@ pub fn generate(rng: &mut Rng, opts: &GenOpts) -> Generated {
                 3 => vec!["X", "Y"],
                 _ => vec!["P", "A$"],
             };
-            let body = if is_str {
+            let flip = opts.type_mistake_permille > 0 && g.rng.chance(1, 5);
+            if flip {
+                g.feat("typed-mistake-function-body");
+            }
+            let body = if is_str != flip {
                 if params.contains(&"A$") { var("A$") } else { g.str_expr(1) }
             } else {
                 // may reference globals, parameters of callers (dynamic scoping) and earlier functions
